@@ -246,12 +246,16 @@ func (s *Syncer[H]) sync(ctx context.Context) {
 	}
 
 	if storeHead.Height() >= subjHead.Height() {
-		log.Warnw("sync attempt to an already synced header",
+		// a head can be added to pending after a sync that was already running stored it
+		// (setLocalHead checks the store head and adds to pending in two steps). Nothing is
+		// left to sync for it, but it must not stay behind as the subjective head, below the
+		// store head and shadowing every head learned later.
+		log.Debugw("sync attempt to an already synced header",
 			"synced_height", storeHead.Height(),
 			"attempted_height", subjHead.Height(),
 		)
-		log.Warn("PLEASE REPORT THIS AS A BUG")
-		return // should never happen, but just in case
+		s.pending.RemoveUpTo(storeHead.Height())
+		return
 	}
 
 	from := storeHead.Height() + 1
